@@ -38,6 +38,10 @@ type heldCase struct {
 	// (what an owner may do with its own decoded structure); the first object is not used afterwards, the others
 	// must still give the result of the run alone: independently decoded objects share no memory
 	Mutate bool `json:"mutate,omitempty"`
+	// OneBuffer: the io.Reader decodes of a sequential case all read from ONE *bytes.Buffer that the caller resets
+	// and refills for every item (reuse of a reader object for the next input); what was decoded from it earlier
+	// must not change
+	OneBuffer bool `json:"oneBuffer,omitempty"`
 }
 
 func init() { harness.RegisterReplay("held", harness.Replayer(checkHeld)) }
@@ -47,6 +51,29 @@ type heldObj struct {
 	file *mp4.File
 	es   []interface{} // "es": values returned by the codec helpers (structs, messages, byte slices), not yet rendered
 	err  string
+}
+
+// heldDecodeFrom is heldDecode (io.Reader path) reading from a caller-owned buffer that is refilled for every item.
+func heldDecodeFrom(kind string, buf *bytes.Buffer, data []byte) (o heldObj) {
+	defer func() {
+		if r := recover(); r != nil {
+			o = heldObj{err: "panic: " + errClass(fmt.Sprint(r))}
+		}
+	}()
+	buf.Reset()
+	buf.Write(data)
+	if kind == "box" {
+		b, err := mp4.DecodeBox(0, buf)
+		if err != nil {
+			return heldObj{err: "error: " + errClass(err.Error())}
+		}
+		return heldObj{box: b}
+	}
+	f, err := mp4.DecodeFile(buf)
+	if err != nil {
+		return heldObj{err: "error: " + errClass(err.Error())}
+	}
+	return heldObj{file: f}
 }
 
 func heldDecode(kind string, data []byte, sr bool) (o heldObj) {
@@ -128,6 +155,34 @@ func heldUse(o heldObj) (res string) {
 		sb.WriteString("encode error: " + errClass(err.Error()) + "\n")
 	} else {
 		fmt.Fprintf(&sb, "enc %x\n", enc.Bytes())
+	}
+	// reading the samples of every fragment (with the trex of its track) is a read: the file encodes as before
+	if o.file.Init != nil && o.file.Init.Moov != nil && o.file.Init.Moov.Mvex != nil {
+		n := 0
+		for _, sg := range o.file.Segments {
+			for _, fr := range sg.Fragments {
+				if fr.Moof == nil || fr.Mdat == nil {
+					continue
+				}
+				for _, tf := range fr.Moof.Trafs {
+					if tf.Tfhd == nil {
+						continue
+					}
+					trex, _ := o.file.Init.Moov.Mvex.GetTrex(tf.Tfhd.TrackID)
+					func() {
+						defer func() { _ = recover() }()
+						ss, err := fr.GetFullSamples(trex)
+						if err == nil {
+							n += len(ss)
+						}
+					}()
+				}
+			}
+		}
+		var again bytes.Buffer
+		if err := o.file.Encode(&again); err == nil && enc.Len() > 0 && !bytes.Equal(again.Bytes(), enc.Bytes()) {
+			fmt.Fprintf(&sb, "%s after reading %d samples the file encodes differently\n", readChangedMarker, n)
+		}
 	}
 	return sb.String()
 }
@@ -309,6 +364,8 @@ func scramble(v reflect.Value, seen map[uintptr]bool, depth int) {
 	}
 }
 
+const readChangedMarker = "READ-CHANGED-THE-FILE:"
+
 func checkHeld(c heldCase) *harness.Fail {
 	n := len(c.Items)
 	if n < 2 || n > 8 || len(c.SR) != n || (c.Kind != "box" && c.Kind != "file" && c.Kind != "es") {
@@ -336,6 +393,11 @@ func checkHeld(c heldCase) *harness.Fail {
 	for i := range c.Items {
 		alone[i] = heldUse(heldDecode(kind, c.Items[i], c.SR[i]))
 	}
+	for i := range alone {
+		if k := strings.Index(alone[i], readChangedMarker); k >= 0 {
+			return harness.Failf("C20|GetFullSamples|reading the samples of a decoded file changed what the file encodes to", "%s item %d: %s", c.Kind, i, firstLine(alone[i][k:], 200))
+		}
+	}
 	// held: all decoded first
 	objs := make([]heldObj, n)
 	if c.Par {
@@ -361,8 +423,17 @@ func checkHeld(c heldCase) *harness.Fail {
 			return harness.Failf("C20|race|"+raceKey(report), "%d data race report(s) while %d goroutines decoded %s items of type %q:\n%s", after-before, n, c.Kind, c.Typ, trimReport(report))
 		}
 	} else {
+		var shared bytes.Buffer
 		for i := range c.Items {
-			objs[i] = heldDecode(kind, c.Items[i], c.SR[i])
+			if c.OneBuffer && !c.SR[i] && c.Kind != "es" {
+				objs[i] = heldDecodeFrom(kind, &shared, c.Items[i])
+			} else {
+				objs[i] = heldDecode(kind, c.Items[i], c.SR[i])
+			}
+		}
+		if c.OneBuffer {
+			shared.Reset()
+			shared.Write(bytes.Repeat([]byte{0xa5}, 4096)) // the caller goes on using its buffer
 		}
 	}
 	if c.Mutate && c.Kind != "es" {
@@ -475,6 +546,7 @@ func genHeld(t *rapid.T) heldCase {
 	c.Par = rapid.IntRange(0, 2).Draw(t, "par") == 0
 	c.Rev = rapid.Bool().Draw(t, "rev")
 	c.Mutate = c.Kind != "es" && rapid.IntRange(0, 2).Draw(t, "mutate") == 0
+	c.OneBuffer = c.Kind != "es" && !c.Par && rapid.IntRange(0, 2).Draw(t, "oneBuffer") == 0
 	return c
 }
 
@@ -498,6 +570,9 @@ func TestHeld(t *testing.T) {
 		}
 		if c.Mutate {
 			classes = append(classes, "held-first-object-overwritten-before-the-others-are-used")
+		}
+		if c.OneBuffer {
+			classes = append(classes, "held-one-reused-bytes.Buffer-as-reader")
 		}
 		allSR, anySR := true, false
 		for _, s := range c.SR {
